@@ -448,6 +448,27 @@ static int sbdf_get_rle_values(sbdf_valuearray* handle, sbdf_object** result)
 		return SBDF_ERROR_UNKNOWN_TYPEID;
 	}
 
+	/* the runs must pair up with the values and add up to the stored row count */
+	if (handle->object1->count != handle->object2->count)
+	{
+		return SBDF_ERROR_INVALID_SIZE;
+	}
+
+	for (i = 0; i < handle->object1->count; ++i)
+	{
+		int run_len = 1 + ((unsigned char *)handle->object1->data)[i];
+		if (run_len > handle->value1 - elem_cnt)
+		{
+			return SBDF_ERROR_INVALID_SIZE;
+		}
+		elem_cnt += run_len;
+	}
+
+	if (elem_cnt != handle->value1)
+	{
+		return SBDF_ERROR_INVALID_SIZE;
+	}
+
 	if (!(t = calloc(1, sizeof(sbdf_object))))
 	{
 		return SBDF_ERROR_OUT_OF_MEMORY;
@@ -455,7 +476,7 @@ static int sbdf_get_rle_values(sbdf_valuearray* handle, sbdf_object** result)
 	t->type = handle->object2->type;
 	t->count = elem_cnt = handle->value1;
 
-	if (!(t->data = malloc(elem_size * elem_cnt)))
+	if (!(t->data = malloc((size_t)elem_size * elem_cnt)))
 	{
 		sbdf_obj_destroy(t);
 		return SBDF_ERROR_OUT_OF_MEMORY;
@@ -627,6 +648,15 @@ static int sbdf_read_valuearray_int(FILE* file, sbdf_valuearray** handle)
 				return err;
 			}
 
+			if (v < 0)
+			{
+				if (handle)
+				{
+					sbdf_va_destroy(*handle);
+				}
+				return SBDF_ERROR_INVALID_SIZE;
+			}
+
 			if (handle)
 			{
 				(*handle)->value1 = v;
@@ -679,6 +709,15 @@ static int sbdf_read_valuearray_int(FILE* file, sbdf_valuearray** handle)
 					sbdf_va_destroy(*handle);
 				}
 				return err;
+			}
+
+			if (v < 0)
+			{
+				if (handle)
+				{
+					sbdf_va_destroy(*handle);
+				}
+				return SBDF_ERROR_INVALID_SIZE;
 			}
 
 			if (handle)
